@@ -36,7 +36,7 @@ func New(storeDriver store.Store, manager balance.Manager) *VipnodePool {
 		Store:            storeDriver,
 		BalanceManager:   manager,
 		remoteHosts:      map[store.NodeID]jsonrpc2.Service{},
-		remoteNodeLookup: map[jsonrpc2.Service]store.NodeID{},
+		remoteNodeLookup: map[jsonrpc2.Service]map[store.NodeID]struct{}{},
 	}
 }
 
@@ -57,7 +57,7 @@ type VipnodePool struct {
 
 	mu               sync.Mutex
 	remoteHosts      map[store.NodeID]jsonrpc2.Service
-	remoteNodeLookup map[jsonrpc2.Service]store.NodeID // Reverse lookup
+	remoteNodeLookup map[jsonrpc2.Service]map[store.NodeID]struct{} // Reverse lookup: hosts registered on a connection
 }
 
 // TODO: Move CloseRemote and NumRemotes, and remoteHosts etc into a separate struct?
@@ -67,17 +67,19 @@ func (p *VipnodePool) CloseRemote(remote jsonrpc2.Service) error {
 	p.mu.Lock()
 	defer p.mu.Unlock()
 
-	nodeID, ok := p.remoteNodeLookup[remote]
+	nodeIDs, ok := p.remoteNodeLookup[remote]
 	if !ok {
 		// Nothing to clean up
 		return nil
 	}
 
 	delete(p.remoteNodeLookup, remote)
-	if p.remoteHosts[nodeID] == remote {
-		// Only unregister the host if it did not reconnect on a newer
-		// connection in the meantime.
-		delete(p.remoteHosts, nodeID)
+	for nodeID := range nodeIDs {
+		if p.remoteHosts[nodeID] == remote {
+			// Only unregister the host if it did not reconnect on a newer
+			// connection in the meantime.
+			delete(p.remoteHosts, nodeID)
+		}
 	}
 
 	return nil
@@ -332,7 +334,10 @@ func (p *VipnodePool) connect(ctx context.Context, nodeID string, req ConnectReq
 
 		p.mu.Lock()
 		p.remoteHosts[node.ID] = service
-		p.remoteNodeLookup[service] = node.ID
+		if p.remoteNodeLookup[service] == nil {
+			p.remoteNodeLookup[service] = map[store.NodeID]struct{}{}
+		}
+		p.remoteNodeLookup[service][node.ID] = struct{}{}
 		p.mu.Unlock()
 	}
 
